@@ -42,7 +42,9 @@ class Result:
 
 def _env():
     env = dict(os.environ)
-    env["PYTHONPATH"] = ROOT + os.pathsep + env.get("PYTHONPATH", "")
+    # VERIF_REPO (development aid): analyse another checkout than /repo - it is put first on the path so `import codelimit` resolves there
+    repo = env.get("VERIF_REPO")
+    env["PYTHONPATH"] = (repo + os.pathsep if repo else "") + ROOT + os.pathsep + env.get("PYTHONPATH", "")
     env.setdefault("PYTHONHASHSEED", "0")
     env["PYTHONDONTWRITEBYTECODE"] = "1"
     return env
